@@ -1,9 +1,2 @@
-"""C16 tbutils: ParsedException round trip; TracebackInfo / ExceptionInfo vs the traceback module"""
-LEVEL = 'exploration'
-LEVEL_TEXT = 'bounded stand-in only (no deductive part: regex-driven scanner and interpreter frames)'
-LEVEL_NOTE = 'bounded'
-TECHNIQUE = ('executable contracts on the real tbutils: every traceback text rendered from a model (frames x optional '
-             'source/marker lines x paths x function names x type names x messages) through from_string/to_string; live '
-             'exceptions raised through enumerated call chains compared with traceback.extract_tb/format_exception '
-             '(marker lines removed)')
-EXPLANATION = 'C16'
+from checks._meta import export
+globals().update(export("C16"))
